@@ -27,7 +27,11 @@ Judge(e) ==
                   pk_roundtrip |-> e.pk_rt = "ok-equal" /\ e.pk_rt_bytes_equal,
                   last_candidate_accepted |-> Len(e.cands) >= 1 /\ e.cands[Len(e.cands)].verdict = 0
                                               /\ \A i \in 1..(Len(e.cands) - 1) : e.cands[i].verdict # 0]
-        failed == FailedOf(facts) \cup FailedOf(codec)
+        \* keys constructed at the edge of the encodable range (tag edge-valid-key-*) are valid NTRU keys but not keygen outputs:
+        \* only the NTRU equation, the public-key relation and the codec facts are demanded of them
+        isEdge == Len(e.tag) >= 14 /\ SubSeq(e.tag, 1, 14) = "edge-valid-key"
+        failed == IF isEdge THEN (FailedOf(facts) \cap {"ntru_eq", "f_invertible", "pk_relation", "representable"}) \cup (FailedOf(codec) \ {"last_candidate_accepted"})
+                  ELSE FailedOf(facts) \cup FailedOf(codec)
     IN [ok |-> failed = {}, branch |-> IF failed = {} THEN "key-valid-n" \o ToString(e.n) ELSE "key-facts-failed", detail |-> failed]
   ELSE IF e.ev = "keylight" THEN
     IF e.panic THEN [ok |-> FALSE, branch |-> "keygen-panic", detail |-> {"panic"}]
